@@ -280,7 +280,7 @@ func genC03Prim(rt *rapid.T) *CasePrim {
 				c.Strs[i] = mkStr(20)
 			}
 		}
-		if n > 0 && c.Inner != "uint8" && rapid.IntRange(0, 3).Draw(rt, "longelem") == 0 {
+		if n > 0 && NSize(c.Inner) > 1 && rapid.IntRange(0, 3).Draw(rt, "longelem") == 0 {
 			c.Strs[0] = expandBytes(rapid.SampledFrom([]int{256, 258, 300}).Draw(rt, "elen"), 1)
 		}
 	case "objlist":
@@ -291,6 +291,15 @@ func genC03Prim(rt *rapid.T) *CasePrim {
 				c.Strs[i] = expandBytes(int(splitmix(uint64(i))%4), uint64(i))
 			} else {
 				c.Strs[i] = mkStr(9)
+			}
+		}
+	}
+	if c.Elem == "def-float32" {
+		// encoding/binary handles a defined float type by reflection (float32 -> float64 -> float32), which quiets a
+		// signalling NaN in both byte orders alike; not a byte-order matter, so such payloads are kept out of this domain
+		for i, n := range c.Nums {
+			if n&0x7f800000 == 0x7f800000 && n&0x007fffff != 0 {
+				c.Nums[i] = n | 0x00400000
 			}
 		}
 	}
@@ -321,7 +330,17 @@ func genC03Prim(rt *rapid.T) *CasePrim {
 
 // (b) message level
 func oracleC03Msg(c *CaseValue) *Failure {
-	r := Render(c.V, nil)
+	defer runPrelude(c.Pre)()
+	var ro *RenderOpts
+	for _, op := range c.Pre {
+		if op.Kind == "unreg" {
+			if ro == nil {
+				ro = &RenderOpts{NoService: map[string]bool{}}
+			}
+			ro.NoService[op.Algo] = true
+		}
+	}
+	r := Render(c.V, ro)
 	if r.MustError || r.MayError {
 		Col.BrokenHarness("C03 message generator produced a value outside the must-succeed domain: " + r.Why)
 		return nil
@@ -339,7 +358,11 @@ func oracleC03Msg(c *CaseValue) *Failure {
 			order = "little"
 		}
 		i := firstDiff(out, r.Bytes)
-		flipped := Render(c.V, &RenderOpts{FlipEndian: true})
+		fo := &RenderOpts{FlipEndian: true}
+		if ro != nil {
+			fo.NoService = ro.NoService
+		}
+		flipped := Render(c.V, fo)
 		hint := ""
 		if bytes.Equal(out, flipped.Bytes) {
 			hint = " (equals the rendering in the other byte order)"
@@ -395,6 +418,11 @@ func TestC03(t *testing.T) {
 				o.BigProb = 0
 				v, ft := GenValue(rt, tn, o)
 				c := &CaseValue{Type: tn, V: v}
+				if ckFieldName(Types[tn]) != "" && rapid.IntRange(0, 4).Draw(rt, "noservice") == 0 {
+					// the frame's checksum service is not registered: the caller's value goes out, in the protocol's byte order
+					c.Pre = []PreOp{{Kind: "unreg", Algo: Types[tn].Fields[Types[tn].FieldIndex(ckFieldName(Types[tn]))].Algo}}
+					Col.Class("frame-without-its-checksum-service", 1)
+				}
 				a, b := Render(v, nil), Render(v, &RenderOpts{FlipEndian: true})
 				nt := !bytes.Equal(a.Bytes, b.Bytes)
 				cls := []string{"msg", "module:" + Types[tn].Module}
